@@ -16,6 +16,11 @@ pub fn gen_admin(rng: &mut Rng, thorough: bool) -> Vec<String> {
     let mut ops = vec![];
     let mut ctx = new_ctx(rng);
     setup(rng, &mut ops, &mut ctx, false);
+    // further codes that SHARE a checksum: a duplicate of code 1, and two different codes carrying the same own checksum
+    ops.push("dup 1".into());
+    ops.push("store-c D 11*32".into());
+    ops.push("store-c E 11*32".into());
+    let ncodes = ctx.codes + 3;
     // c1_0 admin u1, c2_1 no admin, c1_2 admin u2; make one contract admin of another sometimes
     if rng.chance(1, 2) {
         ops.push("exec u1 (upd c1_0 c2_1)".into()); // contract c2_1 becomes admin of c1_0
@@ -29,7 +34,7 @@ pub fn gen_admin(rng: &mut Rng, thorough: bool) -> Vec<String> {
         let r = rng.below(100);
         ops.push("rawhash".into());
         let msg = if r < 30 {
-            let code = if rng.chance(1, 8) { 9 } else { rng.range(1, ctx.codes) };
+            let code = if rng.chance(1, 8) { 9 } else { rng.range(1, ncodes) };
             let script = match rng.below(4) {
                 0 => "((w 6d6967 01) (attr migrated yes))".to_string(),
                 1 => "((rd 6b) (rng ~ ~ asc))".to_string(),
@@ -45,7 +50,7 @@ pub fn gen_admin(rng: &mut Rng, thorough: bool) -> Vec<String> {
             // a contract acting (possibly as admin) through a sub-message
             let inner = match rng.below(3) {
                 0 => format!("(upd {} {})", c, rng.pick(&["u1", "u2", "c2_1"])),
-                1 => format!("(mig {} {} ((attr m 1)))", c, rng.range(1, ctx.codes)),
+                1 => format!("(mig {} {} ((attr m 1)))", c, rng.range(1, ncodes)),
                 _ => format!("(clr {})", c),
             };
             let mode = rng.pick(&["always", "error", "success", "never"]);
